@@ -21,7 +21,7 @@ ASSUMPTIONS = ['root-finder tolerance: brentq xtol=2e-12 in u; function-value sl
 
 def cases(seed, tier):
     rng = rng_for(seed, 'C08')
-    n_rand = 4 if tier == 'quick' else 60
+    n_rand = 4 if tier == 'quick' else 800
     out = []
     for fam in biv.FAMILIES:
         for th in biv.theta_list(fam, n_rand, rng):
